@@ -257,7 +257,14 @@ impl<'e> Visitor<'e, 'e> for DepGraph<'e> {
                 None
             }
 
-            Expr::Call(Expr::Ident(id, ..), ..) if !id.name.as_str().starts_with('#') => {
+            // Any call which is not a call to a builtin operator may have side effects (or fail),
+            // whether the called function is named directly or is the result of an expression
+            Expr::Call(f, ..)
+                if match f {
+                    Expr::Ident(id, ..) => !id.name.as_str().starts_with('#'),
+                    _ => true,
+                } =>
+            {
                 for window in self
                     .currents
                     .windows(2)
